@@ -9,6 +9,7 @@ import AnyTLS.Drv.Open
 import AnyTLS.Drv.Pool
 import AnyTLS.Drv.Hb
 import AnyTLS.Drv.Socks
+import AnyTLS.Drv.Http
 import AnyTLS.Drv.Cert
 
 open AnyTLS.Drv
@@ -130,6 +131,7 @@ def dispatch (st : DrvState) (line : String) : DrvState × String :=
   | "pool" :: rest => poolLine st rest
   | "hb" :: rest => (st, hbOp rest)
   | "socks" :: rest => (st, socksOp rest)
+  | "http" :: rest => (st, httpOp rest)
   | "hx" :: rest => hxLine st rest
   | "cert" :: rest => let (m, o) := certOp st.cert rest; ({ st with cert := m }, o)
   | "e2e" :: rest => (st, e2eLine rest)
